@@ -57,6 +57,11 @@ FIXED += [
     ("C06", "c4b7fa4", "LIMIT was ignored for GROUP BY queries (`select ext, count(*) ... group by ext order by 2 desc limit 3` printed every group)", []),
     ("C08", "62f6e8f", "`order by avg(size)` over group rows sorted as text (10.5 < 100 < 9.5): a column counted as numeric only when all values were integers", []),
     ("C08", "419526c", "a GROUP BY query ordered by a key or aggregate it does not display (`select ext, count(*) ... order by sum(size)`) was silently sorted by its first column", []),
+    ("C10", "3912556", "an argument that is not valid UTF-8 (`fselect name from $'r\\xff'`) panicked in env::args() (audit agent; C10 now has such arguments)", []),
+    ("C04", "15dfb9c", "the path given with --config was lower-cased: a configuration file below a directory with an upper-case letter was never found, the overriding extension lists were ignored (audit agent; C04 now also passes its configurations with --config)", []),
+    ("C01", "5f45e0f", "a search root whose name begins with ~ (`from ~t`, `from '~t/sub'`) was replaced by / joined to the home directory (audit agent; C01 now has special-root cases)", []),
+    ("C01", "2e2ec5c", "search root `/` (and the default root with cwd /): the depth window was off by one below level 1 because calc_depth(\"/\") == calc_depth(\"/tmp\") (audit agent; C01 now searches `/` inside a chroot jail)", []),
+    ("C01", "b05f7a6", "the set of visited directories was keyed by inode number without the device: with several file systems below the root (or roots on different file systems) directories whose inode number repeats were listed but not entered (audit agent; C01 now builds trees over several tmpfs mounts in a private mount namespace)", []),
     ("C10", "9b6a0a7", "day('2020-0\u0661-01'): the date pattern matched non-ASCII digits and the integer parse of the capture was unwrapped (found by the eval_total fuzz target after 2e7 executions)", ["date-non-ascii-digit"]),
     ("C10", "69a0b27", "`name from './[a' depth 1 rx`: a malformed pattern in a regexp search root panicked (unwrap of Regex::new)", ["regexp-root-malformed"]),
 ]
